@@ -36,6 +36,8 @@ def extra_family():
         fam.append(dict(name=name, spec=spec, ranges=[], unbounded=[], inputs=W.constant_cells(spec),
                         cells=W.all_cells(spec), tags=[]))
     add('bigvals', S({'A1': 2000000, 'B1': '=A1*2', 'C1': '=B1+0.5', 'D1': '=C1-A1'}))
+    add('two_sheet_formulas', {'sheets': {'Report': {'A1': '=Data!B1+1', 'A2': '=SUM(Data!A1:B2)', 'A3': '=A1&"|"'},
+                                          'Data': {'A1': 10, 'B1': '=A1*2', 'A2': 3, 'B2': '=A2+B1'}}, 'active': 'Report'})
     return fam
 
 
@@ -244,7 +246,7 @@ def run(ctx):
     tols = TOLS if ctx.thorough else [None, 0.01]
     if not ctx.thorough:
         keep = ('chain', 'diamond', 'fan_range', 'nested', 'two_sheets', 'names', 'cse', 'types', 'if', 'errformula',
-                'mixed_range', 'bigvals', 'range_of_formulas', 'zero_results', 'unbounded', 'lookup', 'sheet_range_name', 'unbounded_formulas', 'single_row_unbounded', 'cse2')
+                'mixed_range', 'bigvals', 'range_of_formulas', 'zero_results', 'unbounded', 'lookup', 'sheet_range_name', 'unbounded_formulas', 'single_row_unbounded', 'cse2', 'two_sheet_formulas')
         fams = [f for f in fams if f['name'] in keep]
     k = ctx.seed % len(fams)
     jobs = [(f, tols) for f in fams[k:] + fams[:k]]
